@@ -142,6 +142,10 @@ func (t *Type) PossibleTypes() []Type {
 
 	res := []Type{}
 	for _, pt := range t.schema.GetPossibleTypes(t.def) {
+		if pt.Kind != ast.Object {
+			// interfaces implementing this interface are not possible (object) types
+			continue
+		}
 		res = append(res, *WrapTypeFromDef(t.schema, pt))
 	}
 	return res
